@@ -406,9 +406,65 @@ def meta_strategy(fresh_per='call'):
     })
 
 
+# ---------------------------------------------------------------------------------------------------------
+# alike mode: class values that *print* the same but are different values (the global word class vs a union that merely
+# prints as \w, a one-character class vs the token it prints as ...) combined with the same partners in one process
+# ---------------------------------------------------------------------------------------------------------
+ALIKE = [['word', True], ['or', ['word', True], ['named', 'AnyDigit']], ['or', ['word', True], ['c', '_']], ['word', False],
+         ['or', ['word', False], ['named', 'AnyDigit']], ['butword', True], ['inv', ['or', ['word', True], ['named', 'AnyDigit']]],
+         ['named', 'AnyDigit'], ['between', ['c', '0'], ['c', '9']], ['from', [['c', 'a']]], ['between', ['c', 'a'], ['c', 'b']]]
+PARTNERS = [['from', [['c', '-']]], ['from', [['c', '\u00e9']]], ['named', 'AnyDigit'], ['between', ['c', 'a'], ['c', 'f']],
+            ['from', [['c', '-'], ['c', '\u0431']]], ['butfrom', [['c', '-']]], ['c', '-'], ['c', '\u00e9']]
+
+
+def check_alike(case, ctx):
+    from pbt import charsets as cs
+
+    def run(e):
+        try:
+            return ('ok', cs.scan(str(cs.build(e))))
+        except cs.NotACharSet as ex:
+            return ('bad', str(ex)[:80])
+        except Exception as ex:  # noqa: BLE001
+            if type(ex).__name__ == 'CaseTimeout':
+                raise
+            return ('exc', type(ex).__name__)
+    n = 0
+    for partner in case['partners']:
+        for a in case['alike']:
+            for e in (['or', a, partner], ['or', partner, a], ['sub', a, partner]):
+                if e[1][0] == 'c' and e[2][0] == 'c':
+                    continue
+                hist = run(e)
+                with fresh_mod.state():
+                    ref = run(e)
+                n += 1
+                if hist != ref:
+                    v = Violation('history_dependent_class', case, f'{cs.render(e)} matches {cs.show(hist[1]) if hist[0] == "ok" else hist} in this process '
+                                  f'(after operands that print alike were combined with the same partner) but '
+                                  f'{cs.show(ref[1]) if ref[0] == "ok" else ref} in freshly imported modules')
+                    if not findings.classify(ID, v.kind, case):
+                        raise v
+    ctx.count('alike_expressions', n)
+    ctx.case(case, n >= 2, sample={'alike': [cs.render(a) for a in case['alike'][:4]], 'partners': [cs.render(x) for x in case['partners'][:3]]})
+
+
+def alike_cases(seed):
+    import random
+    rng = random.Random(seed)
+    for _ in range(6):
+        alike = ALIKE[:]
+        rng.shuffle(alike)
+        partners = PARTNERS[:]
+        rng.shuffle(partners)
+        yield {'mode': 'alike', 'alike': alike[:7], 'partners': partners[:4]}
+
+
 def check_case(case, ctx):
     if case.get('mode') == 'meta':
         return check_meta(case, ctx)
+    if case.get('mode') == 'alike':
+        return check_alike(case, ctx)
     if 'program' in case:
         replay_cross_process(case, ctx)
         check_case(case['program'], ctx)
@@ -484,14 +540,19 @@ def strategy():
 
 
 def shards(tier):
-    n = 12 if tier == 'quick' else 52
+    n = 11 if tier == 'quick' else 51
     out = [{'examples': 350 if tier == 'quick' else 3000, 'replay_seeds': 2 if tier == 'quick' else 4} for _ in range(n)]
+    out += [{'mode': 'alike'}]
     out += [{'mode': 'meta', 'fresh_per': 'case' if tier == 'quick' else ('call' if i % 2 else 'case'),
              'examples': 700 if tier == 'quick' else 2500} for i in range(4 if tier == 'quick' else 12)]
     return out
 
 
 def run_shard(spec, ctx):
+    if spec.get('mode') == 'alike':
+        from pbt.common import run_enumeration
+        run_enumeration(ctx, alike_cases(ctx.seed * 31 + ctx.shard_index), check_case, 'classes that print alike x partners x orders (6 shuffles)')
+        return
     if spec.get('mode') == 'meta':
         run_hypothesis(ctx, meta_strategy(spec.get('fresh_per', 'call')), check_case, spec['examples'], label='meta')
         return
